@@ -1,0 +1,22 @@
+//go:build verif
+
+package replica
+
+import "github.com/lindb/lindb/pkg/queue"
+
+// VerifPartitionLog exposes the write-ahead log of a partition to the simulator's oracle (build tag verif).
+func VerifPartitionLog(p Partition) queue.FanOutQueue {
+	return p.(*partition).log
+}
+
+// VerifReplicators returns the replicators of a partition keyed by follower node id.
+func VerifReplicators(p Partition) map[int]Replicator {
+	pp := p.(*partition)
+	pp.mutex.Lock()
+	defer pp.mutex.Unlock()
+	rs := make(map[int]Replicator, len(pp.replicators))
+	for id, r := range pp.replicators {
+		rs[int(id)] = r
+	}
+	return rs
+}
